@@ -71,6 +71,27 @@ reg('C01',
     'Velocities of stacked/offset links are measured and matched against the recorded known finding. Sampling, not proof.',
     MJ_NOTE, 'DESIGN.md section 4 C01')
 
+reg('C02',
+    'property-based testing (Hypothesis model generator): differential against MuJoCo mass matrix, bias, passive, actuator and smooth forces and one Euler step, plus a forest-shape sweep',
+    'No counter-example among generated models x states x controls: mass matrix (symmetric, positive definite), bias, passive, actuator and total smooth force equal '
+    'MuJoCo at 1e-8 and one contact/limit-free step at 1e-7 (measured agreement 1e-14); all forest shapes with <= 5 links (quick) / <= 6 links (thorough) are swept. Sampling, not proof.',
+    MJ_NOTE + '; step compared only away from limits and for cond(M) < 1e8', 'DESIGN.md section 4 C02')
+
+reg('C11',
+    'property-based testing (Hypothesis model generator): differential against MuJoCo qfrc_actuator + metamorphic relations (monotone, saturating, local, additive over single-actuator documents)',
+    'No counter-example among generated models with 0-10 mixed actuators (several per joint, on slides, in stacks, negative gears, ctrl/force ranges) x states x controls '
+    'incl. values exactly on and beyond the range bounds: to_tau equals MuJoCo at 1e-9 (measured 1e-15), unactuated dofs are exactly 0, force is monotone with the sign of '
+    'gear, constant beyond the range, and the sum of single-actuator forces. Sampling, not proof.',
+    MJ_NOTE, 'DESIGN.md section 4 C11')
+
+reg('C13',
+    'property-based testing (Hypothesis document generator): differential of MuJoCo forward kinematics and composite inertia between the original document and mjcf.fuse_bodies(document)',
+    'No counter-example among thousands of generated documents with jointless bodies under the world, under jointed bodies and nested (pos only / quat only / both / neither; '
+    'geoms by pos/quat and fromto, sites, jointed children): every geom, site and jointed body keeps its world pose at qpos0 and at a random qpos, capsule end points are kept, '
+    'composite mass/CoM/inertia of every jointed body is kept, and no jointless body remains. Non-normalised jointless quats are matched against the recorded known finding. Sampling, not proof.',
+    'MuJoCo compiles and evaluates both documents; tolerances are those of the fuser\'s six-decimal printing',
+    'DESIGN.md section 4 C13')
+
 PENDING = {}
 
 
